@@ -1223,3 +1223,66 @@ def rule_group_by_name(ctx, rep: Report, rid="M5"):
             "the group of an overload is decided from the previous group only: overloads of one free function that are "
             "separated by another declaration form two groups with the same name, the second <name>.m overwrites the "
             "first, and the ids of the first group have no call site" if last_only or not keyed else "", f"{ci.mod.rel}:{fn.lineno}")
+
+
+def rule_return_ownership(ctx, rep: Report, rid="H6"):
+    """What a routine hands to wrap_shared_ptr (and to the `std::shared_ptr<T> shared(...)` of the ignored-
+    namespace return) becomes a MATLAB handle that `delete` and the unload hook will free.  It is therefore
+    either the callee's own shared pointer, passed through, or a std::make_shared copy of the returned value -
+    never a shared_ptr constructed around an address (`std::shared_ptr<T>(&x)`, `.get()`, a cast): such a handle
+    frees an object owned by somebody else, and twice when two handles adopt it."""
+    ci, prog = mw(ctx)
+    n = 0
+    for name in ("_collector_return", "wrap_collector_function_return_types"):
+        fn = prog.method("MatlabWrapper", name)
+        fo = Folder(prog, ci.mod, fn, ci)
+        sinks: List[Tuple[ast.AST, ast.AST]] = []      # (site, expression handed over)
+        for c in ast.walk(fn):
+            if isinstance(c, ast.Call) and isinstance(c.func, ast.Attribute) and c.func.attr == "format":
+                t = fo.fold(c)
+                if t is None:
+                    continue
+                for i, p in enumerate(t.parts):
+                    if isinstance(p, str) and p.rstrip().endswith("wrap_shared_ptr(") and i + 1 < len(t.parts) \
+                            and isinstance(t.parts[i + 1], Slot) and t.parts[i + 1].expr is not None:
+                        sinks.append((c, t.parts[i + 1].expr))
+                    elif isinstance(p, str) and "wrap_shared_ptr(" in p and not p.rstrip().endswith("wrap_shared_ptr("):
+                        arg = p.split("wrap_shared_ptr(", 1)[1]
+                        sinks.append((c, ast.Constant(value=arg.split(",")[0])))
+            if isinstance(c, ast.Call) and unparse(c.func) == "self.wrap_collector_function_shared_return" and len(c.args) >= 2:
+                sinks.append((c, c.args[1]))
+        for site, e in sinks:
+            vals = values_of_local(fn, e)
+            for v in vals:
+                n += 1
+                t = fo.fold(v)
+                if t is None:
+                    # a bare expression: the callee's result text handed through
+                    form, ok = f"`{unparse(v)[:40]}` (passed through)", isinstance(v, ast.Name) and v.id in func_params(fn)
+                else:
+                    lit = t.deep_literal("§").split(',"')[0]
+                    passthrough = bool(lit) and all(ch.isalnum() or ch in "_.§" for ch in lit)
+                    copy_ = lit.startswith("std::make_shared<") and lit.count("(") == 1 and "&" not in lit
+                    form, ok = f"`{lit[:60]}`", passthrough or copy_
+                rep.add(rid, f"return ownership:{name}:{unparse(v)[:50]}", ok,
+                        f"{form} is handed to MATLAB as an owning handle but is neither the callee's own shared pointer nor a "
+                        f"std::make_shared copy: deleting the handle (or unloading) frees an object that the handle does not own, "
+                        f"and two handles made this way free it twice", f"{ci.mod.rel}:{getattr(v, 'lineno', site.lineno)}")
+    # the template used for ignored-namespace returns builds its shared_ptr from exactly the expression passed in
+    tpl = prog.find_attr(prog.cls("WrapperTemplate"), "collector_function_shared_return")
+    t = Folder(prog, tpl[0].mod, None, tpl[0]).fold(tpl[1]) if tpl else None
+    lit = " ".join(t.literal("§").split()) if t is not None else ""
+    rep.add(rid, "return ownership:collector_function_shared_return:copies the shared pointer it is given",
+            "std::shared_ptr<{name}> shared({shared_obj});" in lit.replace("§", "") or "shared({shared_obj})" in lit, f"template {lit[:120]!r}",
+            f"{tpl[0].mod.rel}:{tpl[1].lineno}" if tpl else "")
+    if n < 4:
+        raise AnalysisError(f"{rep.prop}/{rid}: only {n} values handed to wrap_shared_ptr found (4 expected)")
+
+
+def values_of_local(fn, e: ast.AST) -> List[ast.AST]:
+    """All values a local name is assigned in fn (the expression itself when it is not a local)."""
+    if isinstance(e, ast.Name) and e.id not in func_params(fn):
+        vals = [st.value for st in local_assignments(fn).get(e.id, []) if isinstance(st, ast.Assign)]
+        if vals:
+            return sorted(vals, key=lambda v: v.lineno)
+    return [e]
